@@ -88,13 +88,18 @@ def check(run, M, tier):
         run.check(d == want, "F3", q + " defaults", f.loc(), "defaults %s" % want, "%s has defaults %s; documented %s" % (q, d, want), stmt="F3:" + q)
     for cname, prim in (("FFT", "fft"), ("IFFT", "ifft")):
         f = M.func("sigpy.linop.%s._apply" % cname)
-        calls = [c for c in ast.walk(f.node) if isinstance(c, ast.Call) and isinstance(c.func, ast.Attribute) and c.func.attr in ("fft", "ifft")]
-        from ..common import bound_args
-        ba = bound_args(M, f, calls[0]) if len(calls) == 1 else None
-        ok = ba is not None and calls[0].func.attr == prim and ba == {"input": "input", "oshape": "None", "axes": "self.axes", "center": "self.center", "norm": "'ortho'"}
-        run.check(ok, "F3", cname + "._apply", f.loc(), "calls fourier.%s(input, axes=self.axes, center=self.center)" % prim,
-                  "%s._apply calls `%s`; expected fourier.%s(input, axes=self.axes, center=self.center) with the orthonormal default"
-                  % (cname, unparse(calls[0]) if calls else "nothing", prim), stmt="F3:apply:" + cname)
+        # what _apply computes, read through helper methods (value numbering of the method on a generic instance)
+        from ..linopdesc import LinAlg, _t
+        alg_ = LinAlg(M)
+        want_t = "fn:sigpy.fourier.%s(kw:axes(axes), kw:center(center), kw:input(input), kw:norm('ortho'), kw:oshape(None))" % prim
+        got_t = []
+        for inst in alg_.instances(M.cls("sigpy.linop." + cname)):
+            _, res = alg_.eval_method(inst, "_apply")
+            got_t += [T.show(_t(r), 300) for _, r in res]
+        ok = bool(got_t) and all(g == want_t for g in got_t)
+        run.check(ok, "F3", cname + "._apply", f.loc(), "is fourier.%s(input, axes=self.axes, center=self.center)" % prim,
+                  "%s._apply computes %s; expected fourier.%s(input, axes=self.axes, center=self.center) with the orthonormal default and no output shape"
+                  % (cname, got_t[:2] or "nothing", prim), stmt="F3:apply:" + cname)
         d = {k: (v.value if isinstance(v, ast.Constant) else unparse(v)) for k, v in M.func("sigpy.linop.%s.__init__" % cname).defaults.items()}
         run.check(d == {"axes": None, "center": True}, "F3", cname + " defaults", f.loc(), "operator defaults axes=None, center=True", "%s defaults are %s" % (cname, d), stmt="F3:opdef:" + cname)
     run.rule("F6", "FFT and IFFT name each other as adjoint with the same shape, axes and center (a centred transform's adjoint is the centred inverse), and Identity as normal operator")
